@@ -83,7 +83,7 @@ func suiteV07(c *vctx) {
 		// authentic tokens with chosen plaintexts: ages on both sides of the lifetime, future, odd formats
 		now := time.Now().Unix()
 		lt := int64(lifetime / time.Second)
-		for _, plain := range []string{
+		plains := []string{
 			fmt.Sprintf("alice:true:%d", now-lt+4), fmt.Sprintf("alice:true:%d", now-lt-4), fmt.Sprintf("alice:false:%d", now+5),
 			fmt.Sprintf("alice:true:%d", now-3*lt), fmt.Sprintf("alice:TRUE:%d", now), fmt.Sprintf("alice:1:%d", now),
 			fmt.Sprintf("alice:t:%d", now), fmt.Sprintf("alice: true:%d", now), fmt.Sprintf("alice:true"), "alice", "",
@@ -95,10 +95,41 @@ func suiteV07(c *vctx) {
 			fmt.Sprintf("root:true:%d", int64(-1<<63)+now+lt), "root:true:9223372036854775807", "root:true:9223372036854775806",
 			"root:true:-4611686018427387904", "root:true:4611686018427387904", "root:true:0", "root:true:-1", "root:true:-0",
 			"root:true:2147483647", "root:true:2147483648", "root:true:4294967296", fmt.Sprintf("root:true:%d", now+(1<<32)), fmt.Sprintf("root:true:%d", now-(1<<32)),
-			"root:true:-9223372036854775809", "root:true:9223372036854775808"} {
+			"root:true:-9223372036854775809", "root:true:9223372036854775808"}
+		// issue times a whole number of wrap-arounds of a 64-bit (and 63-, 32-bit) counter of nano-, micro-
+		// and milliseconds away from a fresh one: age arithmetic done in a narrower unit than the
+		// library's saturating one maps them back into the lifetime (seeded change S-C07-8)
+		var wraps []string
+		for _, unit := range []int64{1000000000, 1000000, 1000} {
+			for _, bits := range []uint{64, 63, 32} {
+				var wrap int64 // 2^bits units, in seconds (rounded down and up: the wrap is not a whole number of seconds)
+				if bits == 64 {
+					wrap = int64((uint64(1<<63) / uint64(unit)) * 2)
+				} else {
+					wrap = int64(uint64(1<<bits) / uint64(unit))
+				}
+				for k := int64(1); k <= 2; k++ {
+					for _, d := range []int64{0, 1, lt / 2, lt - 1, lt, lt + 1} {
+						for _, adj := range []int64{0, 1, -1} {
+							if back := now - k*(wrap+adj) - d; back < now && back > now-(1<<62) {
+								wraps = append(wraps, fmt.Sprintf("root:true:%d", back))
+							}
+							if fwd := now + k*(wrap+adj) - d; fwd > now+lt && fwd < now+(1<<62) {
+								wraps = append(wraps, fmt.Sprintf("root:true:%d", fwd))
+							}
+						}
+					}
+				}
+			}
+		}
+		nBase := len(plains)
+		plains = append(plains, wraps...)
+		for pi, plain := range plains {
 			is, text := forge(f, plain)
-			issued = append(issued, is)
-			texts = append(texts, text)
+			if pi < nBase { // the wrap family is judged by the law below only (the mutation pools grow quadratically)
+				issued = append(issued, is)
+				texts = append(texts, text)
+			}
 			// the property, directly, on the authentic token with this plaintext: accepted only if the
 			// issue time is a decimal integer with 0 <= now - t <= lifetime (arbitrary precision here)
 			st, _, _, _ := f.Check(text)
